@@ -94,6 +94,11 @@ def build(tape, prop, tier):
         prec = {QUOTE: qp}
         for b in bases:
             prec[b] = tape.choice([3, 0, 1, 2, 4, 8, 6])
+    # an 18-decimal asset (think wei): balances then need more than 20 significant digits, still well inside the
+    # 28-digit context basana computes in
+    s["hp"] = prop in ("C01", "C02") and tape.chance(0.1)
+    if s["hp"]:
+        prec[bases[0]] = 18
     # optional inverse pair QUOTE/ZZZ: ZZZ reaches the margin quote symbol only through 1/price
     p_inv = {"C10": 0.35, "C11": 0.2, "C01": 0.12, "C02": 0.12, "C07": 0.1}.get(prop, 0.05)
     if tape.chance(p_inv):
@@ -147,12 +152,14 @@ def build(tape, prop, tier):
         if tape.chance(0.85):
             init[QUOTE] = str(D(tape.int(0, 2000000)).scaleb(-2).quantize(D(1).scaleb(-qp)))
         for b in bases:
-            if tape.chance(0.45):
+            if tape.chance(0.45) or (s["hp"] and b == bases[0]):
                 init[b] = str(D(tape.int(0, 50000)).scaleb(-3).quantize(D(1).scaleb(-prec[b])))
+                if prec[b] == 18:
+                    init[b] = str(D(init[b]) + D(tape.int(1, 10 ** 9) * 998244353 % 10 ** 18).scaleb(-18))
         if s["inv"] and tape.chance(0.6):
             init["ZZZ"] = str(D(tape.int(0, 5000000)).scaleb(-2).quantize(D(1).scaleb(-prec["ZZZ"])))
     # balances with more decimals than the symbol precision are legal input (C01/C02 do not exclude them)
-    s["offgrid_init"] = prop in ("C01", "C02") and bool(init) and tape.chance(0.12)
+    s["offgrid_init"] = prop in ("C01", "C02", "C07", "C10", "C11") and bool(init) and tape.chance(0.12)
     if s["offgrid_init"]:
         for sym in list(init):
             init[sym] = str(D(init[sym]) + D(tape.int(1, 9)).scaleb(-(prec[sym] + 1)))
